@@ -6,11 +6,13 @@ import (
 	"path/filepath"
 	"time"
 
+	"github.com/enfein/mieru/v3/pkg/cipher"
 	"github.com/enfein/mieru/v3/pkg/metrics"
 	"github.com/enfein/mieru/v3/pkg/metrics/metricspb"
 	"github.com/enfein/mieru/v3/pkg/replay"
 	"google.golang.org/protobuf/proto"
 
+	"verifsim/refproto"
 	"verifsim/spec"
 )
 
@@ -303,6 +305,79 @@ func (w *World) histCounter(h *spec.History) {
 	check(len(h.Ops), "end")
 }
 
+// ---------------------------------------------------------------------------
+// C08(d): key cache lookups with arbitrary, non-monotonic instants
+
 func (w *World) histKeyCache(h *spec.History) {
-	w.harness("keycache history not built yet")
+	cred := refproto.Cred{User: "kcuser", Password: fmt.Sprintf("kcpass-%d", w.Spec.Seed)}
+	hp := refproto.HashedPassword(cred)
+	dec, err := cipher.NewStatelessDecryptor(hp[:])
+	if err != nil {
+		w.harness("NewStatelessDecryptor: %v", err)
+		return
+	}
+	ct := func(slot int64, ts int64) []byte {
+		key := refproto.KeyForSlot(hp, slot)
+		var nonce [24]byte
+		for i := range nonce {
+			nonce[i] = byte(slot>>uint(i%8)) ^ byte(i*7)
+		}
+		m := refproto.Meta{Type: refproto.TypeAckC2S, TimestampMin: uint32(ts / 60), SessionID: 7, Seq: 1}
+		b, err := refproto.EncodeDatagram(key, "", nonce, m, nil, refproto.EncodeOpts{})
+		if err != nil {
+			w.harness("encode: %v", err)
+			return nil
+		}
+		return b[:refproto.NonceLen+refproto.EncMetaLen]
+	}
+	for i, op := range h.Ops {
+		switch op.Op {
+		case "sleep":
+			time.Sleep(time.Duration(op.SleepUs) * time.Microsecond)
+		case "lookup":
+			t := w.start.Add(time.Duration(op.AtUs) * time.Microsecond)
+			cur := refproto.SlotOf(t.Unix())
+			blocks, epoch, _, err := cipher.VerifCipherListAt(hp[:], t)
+			w.checks++
+			w.histLog("lookup at=%d epoch=%d err=%v", op.AtUs, epoch, err != nil)
+			if err != nil {
+				w.violate("C08", "key-cache-error", "step %d: lookup at %v failed: %v", i, t, err)
+				continue
+			}
+			if epoch != cur {
+				w.violate("C08", "key-cache-wrong-epoch", "step %d: lookup at %v (unix %d) served the entry of epoch %d, the reference slot is %d", i, t.UTC(), t.Unix(), epoch, cur)
+			}
+			opens := func(c []byte) bool {
+				for _, b := range blocks {
+					if _, err := b.DecryptStatelessTo(c, nil); err == nil {
+						return true
+					}
+				}
+				return false
+			}
+			for _, s := range refproto.CandidateSlots(t.Unix()) {
+				if !opens(ct(s, t.Unix())) {
+					w.violate("C08", "key-cache-misses-candidate-slot", "step %d: cipher list served for instant %v (slot %d) cannot open a segment keyed for slot %d", i, t.UTC(), cur, s)
+				}
+			}
+			for _, s := range []int64{cur - 240, cur + 240, cur - 480, cur + 480} {
+				if opens(ct(s, t.Unix())) {
+					w.violate("C08", "key-cache-serves-other-slot", "step %d: cipher list served for instant %v (slot %d) opens a segment keyed for slot %d (>= 4 minutes away)", i, t.UTC(), cur, s)
+				}
+			}
+			// the per-user stateless decryptor keeps its own pointer to a cache entry
+			for _, s := range []int64{cur - 240, cur - 120, cur, cur + 120, cur + 240} {
+				_, _, err := dec.VerifTryDecryptAt(ct(s, t.Unix()), nil, t)
+				near := s >= cur-120 && s <= cur+120
+				w.checks++
+				if near && err != nil {
+					w.violate("C08", "decryptor-misses-candidate-slot", "step %d: StatelessDecryptor at %v (slot %d) failed to open a segment keyed for slot %d", i, t.UTC(), cur, s)
+				}
+				if !near && err == nil {
+					w.violate("C08", "decryptor-serves-other-slot", "step %d: StatelessDecryptor at %v (slot %d) opened a segment keyed for slot %d", i, t.UTC(), cur, s)
+				}
+			}
+			w.states[fmt.Sprintf("phase%d", (t.Unix()%120)/10)] = struct{}{}
+		}
+	}
 }
